@@ -190,7 +190,8 @@ func verifyOwners(entries []discovery.Entry, allowedOwners []*regexp.Regexp) (re
 		if entry.State == discovery.Removed {
 			continue
 		}
-		if entry.PathError != nil {
+		if entry.PathError != nil || entry.Rule.Error.Err != nil {
+			// Invalid rules are reported as parse errors, there is no rule to attach an owner problem to.
 			continue
 		}
 		if entry.Owner == "" {
